@@ -153,6 +153,8 @@ class ConnGen:
                         v |= d.choice(vals)
                 if d.chance(0.1):
                     v = max(vals) + 1
+                elif ecs[0].bitfield and max(vals) < 2**30 and d.chance(0.15):
+                    v |= 1 << max(vals).bit_length()        # named bits plus one the descriptions do not know (a newer peer)
                 return [t, v & 0xffffffff if t == 'uint' else v]
         if t == 'int':
             return ['int', d.choice(I32) if d.chance(0.7) else d.int(-2**31, 2**31 - 1)]
